@@ -195,6 +195,28 @@ def linearise : List (List Float) → List Float → Option (List Nat)
       | some (y :: r) => if showF y = showF x then (linearise (parts.set i r) xs).map (i :: ·) else none
       | _ => none
 
+/-- a decimal number greater than 0, written without sign or leading zero -/
+def posNat (s : String) : Option Nat :=
+  match s.toNat? with
+  | some n => if n > 0 && toString n = s then some n else none
+  | none => none
+
+/-- the records of one connection of a `runtest` line: `-` or `name/bits/host,…` -/
+def parseRecs (s : String) : Option (List M) :=
+  if s = "-" then some [] else
+  (s.splitOn ",").mapM fun r =>
+    match r.splitOn "/" with
+    | [n, b, h] =>
+      match parseF b, parseInt h with
+      | some x, some h => if n.isEmpty then none else some (measure n x h)
+      | _, _ => none
+    | _ => none
+
+/-- a rule the configuration field `buckets` can carry (no blank, `-` or quote: they separate buckets and
+rules, quotes are removed by `RunConfig.Get`) and that `newBucketRule` accepts -/
+def ruleOfField (bs : List Nat) : Option Rule :=
+  if bs.any (fun c => c = 45 || c = 32 || c = 9 || c = 34 || c = 39) then none else parseRule bs
+
 def step (s : State) (toks : List String) : State × String :=
   match toks with
   | ["stats", name, defs, rest] =>
@@ -340,6 +362,38 @@ def step (s : State) (toks : List String) : State × String :=
             | some n' => ({ s with mon := some { mn with m := n'.mon } }, "ok")
             | none => (s, "stuck")
     | _, _, _, _ => (s, "bad-op")
+  | ["runtest", gname, hosts, bf, depth, buckets, parts] =>
+    -- `simul.RunTest` (simul/build.go:183-266) over a platform whose processes write their measures and exit:
+    -- the result sets and the monitor are made, the buckets inserted in the order of the configuration field,
+    -- `Listen` runs until the last connection has been read to its end, then the sets are handed over
+    let groups : Option (List (List (List Nat))) :=
+      if buckets = "-" then some [] else (buckets.splitOn ";").mapM fun g => (g.splitOn ",").mapM Util.unhex
+    match posNat hosts, posNat bf, posNat depth, groups, (parts.splitOn ";").mapM parseRecs, s.mon with
+    | some _, some _, some _, some gs, some futures, none =>
+      let bname (i : Nat) : String := gname ++ "b" ++ toString i
+      if known s gname || (List.range gs.length).any (fun i => known s (bname i)) then (s, "bad-op") else
+      match gs.mapM (·.mapM ruleOfField) with
+      | none => (s, "err")
+      | some rules =>
+        let txt := " ".intercalate (gs.map fun g => "-".intercalate (g.map fun b => String.ofList (b.map Char.ofNat)))
+        let st : St := { static := [("hosts", hosts), ("bf", bf)] ++ (if gs.isEmpty then [] else [("buckets", txt)]) ++
+                                   [("depth", depth), ("runwait", "6s")], vals := [] }
+        let m : Monitor String Float :=
+          { global := st, buckets := (List.range rules.length).foldl (fun bs (i : Nat) => bs.set (Int.ofNat i) (rules[i]?.getD []) st) [] }
+        let k := futures.length
+        let acts := (List.range k).map Act.accept ++
+          (List.range k).flatMap (fun i => (futures[i]?.getD []).map fun _ => Act.write i) ++
+          (List.range k).map Act.hangup ++
+          (List.range k).flatMap (fun i => (futures[i]?.getD []).flatMap fun r =>
+            if isEnd r.name then [Act.decode i] else [.decode i, .deliver i]) ++
+          (List.range k).map Act.eof
+        match runNet (Net.start m futures) acts with
+        | some n' =>
+          if n'.finished then
+            ({ s with free := s.free ++ (gname, n'.mon.global) :: n'.mon.buckets.reverse.map fun b => (bname b.idx.toNat, b.stats) }, "ok")
+          else (s, "stuck")
+        | none => (s, "stuck")
+    | _, _, _, _, _, _ => (s, "bad-op")
   | ["mupd", name, bits, host] =>
     match parseF bits, parseInt host, s.mon with
     | some x, some h, some mn => ({ s with mon := some { mn with m := mn.m.update (measure name x h) } }, "ok")
